@@ -11,6 +11,9 @@ def main():
     if a.only:
         names = [n for n in names if n in a.only.split(",")]
     run_cases(chk, "vlib.exprcheck", "expr_case", names, {"tier": a.tier}, a.jobs)
+    rn = [f"randexpr:{chk.seed}:{i}" for i in range(16 if a.tier == "quick" else 240)] if not a.only else []
+    run_cases(chk, "vlib.exprcheck", "expr_case", rn, {"tier": "quick"}, a.jobs)
+    chk.extra["random_expressions"] = len(rn)
     if a.tier == "thorough":
         run_cases(chk, "vlib.exprcheck", "expr_case", [n for n in names if "nonlinear" not in n], {"tier": a.tier, "scalar": "complex128"}, a.jobs)
     chk.encoded("generated tabulate_tensor_expression_* C text and ufcx_expression initialisers (ffcx.analysis._analyze_expression, ir.representation._compute_expression_ir, expression_generator)")
